@@ -618,8 +618,10 @@ fn deser_type_generic_nested<'frame, 'result, StrT: Into<Cow<'result, str>>>(
                 .map_err(|err| CqlTypeParseError::UdtFieldsCountParseError(err.into()))?
                 .into();
 
+            // The count comes from the wire: do not preallocate more entries than the
+            // remaining bytes could possibly describe (a name and a type id per field).
             let mut field_types: Vec<(Cow<'result, str>, ColumnType)> =
-                Vec::with_capacity(fields_size);
+                Vec::with_capacity(fields_size.min(buf.len() / 4));
 
             for _ in 0..fields_size {
                 let field_name =
@@ -643,7 +645,9 @@ fn deser_type_generic_nested<'frame, 'result, StrT: Into<Cow<'result, str>>>(
             let len: usize = types::read_short(buf)
                 .map_err(|err| CqlTypeParseError::TupleLengthParseError(err.into()))?
                 .into();
-            let mut types = Vec::with_capacity(len);
+            // The count comes from the wire: do not preallocate more entries than the
+            // remaining bytes could possibly describe (a type id per element).
+            let mut types = Vec::with_capacity(len.min(buf.len() / 2));
             for _ in 0..len {
                 types.push(deser_type_generic_nested(
                     buf,
